@@ -11,6 +11,7 @@
 #include <cstddef>
 #include <cstdint>
 #include <cstring>
+#include <limits>
 #include <string>
 
 #if defined(_WIN32)
@@ -55,7 +56,7 @@ public:
   QUILL_ATTRIBUTE_HOT explicit BoundedSPSCQueueImpl(integer_type capacity,
                                                     HugePagesPolicy huge_pages_policy = HugePagesPolicy::Never,
                                                     integer_type reader_store_percent = 5)
-    : _capacity(next_power_of_two(capacity)),
+    : _capacity(_checked_capacity(capacity)),
       _mask(_capacity - 1),
       _bytes_per_batch(static_cast<integer_type>(static_cast<double>(_capacity * reader_store_percent) / 100.0)),
       _storage(static_cast<std::byte*>(_alloc_aligned(
@@ -90,6 +91,17 @@ public:
   }
 
   ~BoundedSPSCQueueImpl() { _free_aligned(_storage); }
+
+  /** the storage is 2 * capacity bytes: refuse a capacity whose doubled size does not fit in 64 bits */
+  QUILL_NODISCARD static integer_type _checked_capacity(integer_type capacity)
+  {
+    integer_type const c = next_power_of_two(capacity);
+    if (static_cast<uint64_t>(c) > (std::numeric_limits<uint64_t>::max() >> 1u))
+    {
+      QUILL_THROW(QuillError{"Capacity is too large: twice the capacity must fit in 64 bits"});
+    }
+    return c;
+  }
 
   /**
    * Deleted
